@@ -50,7 +50,7 @@ ASSUMPTIONS = ['files opened for writing below the project copy (audit hook "ope
 BUDGET_S = {'quick': 400, 'thorough': 3000}
 CASE_TIMEOUT_S = 300
 
-SHAPES = ['write', 'dep', 'wrapdep', 'dup', 'rem', 'duprem', 'all', 'all']
+SHAPES = ['write', 'dep', 'wrapdep', 'dup', 'rem', 'duprem', 'dupdep', 'dupdep']
 
 
 def setup_worker(tier, ctx):
@@ -62,7 +62,7 @@ def setup_worker(tier, ctx):
 # gated slices (idx % 32): constructs with a known finding or outside the documented domain of the transformations
 GATES = {3: 'types', 13: 'full_features', 5: 'called_from_internal', 6: 'intf_block', 7: 'multi_unit_file', 9: 'lists',
          11: 'same_basename', 17: 'sibling_caller', 19: 'function_in_subgraph', 21: 'module_level_import',
-         23: 'mixed_role_module', 15: 'unused_imports', 1: 'kernel_module_globals', 31: 'internal_calls', 25: 'internal_in_subgraph', 27: 'non_procedure_in_subgraph', 29: 'bare_external_wrap'}
+         23: 'mixed_role_module', 15: 'unused_imports', 30: 'rem_then_rename', 1: 'kernel_module_globals', 31: 'internal_calls', 25: 'internal_in_subgraph', 27: 'non_procedure_in_subgraph', 29: 'bare_external_wrap'}
 
 
 def gen_case(rng, idx):
@@ -81,7 +81,10 @@ def gen_case(rng, idx):
         extra['unused_imports'] = True
     P = PL.gen_project(rng, rng.randint(5, 12), extra, all_intf=all_intf,
                        internal_calls=gate in ('internal_calls', 'full_features', 'called_from_internal'),
-                       kernel_module_globals=gate in ('kernel_module_globals', 'full_features'))
+                       kernel_module_globals=gate in ('kernel_module_globals', 'full_features'),
+                       multi_unit_files=gate in ('multi_unit_file', 'full_features'))
+    if any(len(u) > 1 for _, u in P.files):
+        traits.add('multi_unit_file')
     if gate == 'kernel_module_globals':
         traits.add('kernel_module_globals')
     if 'unused_subroutine_import' in P.features:
@@ -99,11 +102,15 @@ def gen_case(rng, idx):
     traits |= meta['traits']
     exp = L.reference_closure(P.truth(), cfg, None)
     shape = rng.choice(SHAPES)
+    if gate in ('rem_then_rename', 'full_features') and rng.random() < 0.8:
+        shape = 'all'
     allow = {gate} if gate else set()
     if gate == 'full_features':
         allow |= {'dup_local_name', 'module_level_import', 'function_in_subgraph', 'non_procedure_in_subgraph'}
     spec, info = PL.choose_pipeline(rng, P, exp, meta, shape, allow)
     traits |= info['traits']
+    if info['rem'] and any(n in ('dep', 'wrap') for n, _ in spec):
+        traits.add('rem_then_rename')
     if not all_intf and any(n == 'wrap' for n, _ in spec) and PL.has_bare_external_calls(P, exp):
         traits.add('bare_external_wrap')
     wopts = {}
@@ -423,13 +430,18 @@ def run_case(idx, rng, tier, ctx):
             if ref['status'] != 'ok':
                 res['inconclusive'] = 'generator defect: reference project does not build/run: ' + ref['detail'][:300]
                 return res
-            files = {}
-            for o in originals:
-                if o not in set(rem):
-                    files[o] = Path(o).read_text()
-            for a in app:
-                files[a] = Path(a).read_text()
-            got = PL.build_and_run(base / 'planbuild', files, drv, must_compile=set(app))
+            required = {a: Path(a).read_text() for a in app}
+            optional = {o: Path(o).read_text() for o in originals if o not in set(rem)}
+            # nothing stale: a retained, non-replicated original must not define a unit that a generated file defines
+            gen_names = set()
+            for t in required.values():
+                gen_names |= PL.top_level_names(t)
+            for o, t in optional.items():
+                if os.path.relpath(o, str(Path(broot) / 'src')) not in rep_files and PL.top_level_names(t) & gen_names:
+                    viol('stale-original-kept', pipe_key(case),
+                         f'{os.path.relpath(o, broot)} stays in the build and defines '
+                         f'{sorted(PL.top_level_names(t) & gen_names)} like a generated file')
+            got = PL.build_and_run(base / 'planbuild', required, drv, optional)
             if got['status'] == 'build_fail':
                 viol('plan-build-fails', build_detail(got['detail']) + ':' + pipe_key(case), got['detail'])
             elif got['status'] == 'run_fail':
